@@ -91,6 +91,10 @@ class C12:
                     L[key]["execd"] = [p for p in L[key]["execd"] if p[1] is not None]
                 op = C02P.to_harness({"id": 0, "names": NAMES, "ops": [{"op": "handle", "n": rng.choice(NAMES), "layer": L}]})["ops"][0]
                 op["n"] = prep[0]["n"] if "n" in prep[0] and rng.random() < 0.7 else op["n"]
+            # somebody left dangling symbolic links where the layer's SBOM files go: removing them can fail too
+            if i % 3 == 0:
+                for sfx in rng.sample(["cdx.json", "spdx.json", "syft.json"], rng.choice([1, 2, 3])):
+                    prep.append({"op": "plant", "path": op["n"] + bl(".sbom." + sfx), "target": bl("gone-" + sfx)})
             cases.append({"kind": "layer", "names": [bl(n) for n in NAMES], "probes": PROBES, "prep": prep, "op": op,
                           "errnos": ERRNOS, "all_errnos": tier == "thorough"})
         # designed operations that write back what they read (trait API: metadata of the wrong shape on disk,
